@@ -577,6 +577,14 @@ def gen_derive(rng, w, t):
         cands = [q for q in w.names() if w.env[q]['X'].size == X.size]
         return ['derive', nm, kind, t, rng.choice(cands) if cands else t]
     if kind in ('add', 'sub'):
+        if rng.random() < 0.3:
+            # a dense operand of its own typecode (integer, or real with a complex sparse matrix): the result is promoted
+            o_ = w.fresh()
+            otc = rng.choice(['i', 'd', 'z'])
+            spec = gen_dense(rng, m, n, 'd' if otc == 'i' else otc)
+            if otc == 'i':
+                spec = dict(spec, tc='i', v=[int(v) for v in spec['v']])
+            return ['seq', ['new', o_, spec], ['derive', nm, kind, t, o_]]
         cands = [q for q in w.names() if w.env[q]['X'].size == X.size]
         other = rng.choice(cands) if cands else t
         return ['derive', nm, kind, t, other]
